@@ -77,6 +77,22 @@ def step (line : String) : String :=
           let c := step6Counts adj lthr uthr obs cmh cmf
           s!"{c.1} {c.2} {r.1} {r.2} {b01 (step6Tie adj lthr uthr obs cmh cmf)}"
       | _, _, _, _, _, _ => "bad-op"
+  | ["seqcounts", adj, evs, obs, cmh, cmf] =>
+      -- events: `L:<thr|none>`, `U:<thr|none>`, `use`, comma separated; the instance starts without thresholds
+      let parseEv : String → Option ThrEvent := fun s =>
+        if s = "use" then some ThrEvent.use
+        else match s.splitOn ":" with
+          | ["L", t] => (parseOptRat? t).map ThrEvent.setLower
+          | ["U", t] => (parseOptRat? t).map ThrEvent.setUpper
+          | _ => none
+      match parseBool? adj, parseList? parseEv evs, rats? obs, rats? cmh, rats? cmf with
+      | some adj, some evs, some obs, some cmh, some cmf =>
+          if obs.isEmpty || cmh.isEmpty || cmf.isEmpty then "error empty-series" else
+          let st := (ThrState.mk none none).run evs
+          let c := thrCountsOf adj st obs cmh cmf
+          let r := rawCounts adj st.lower st.upper obs cmh cmf
+          s!"{c.1} {c.2} {r.1} {r.2} {b01 (step6Tie adj st.lower st.upper obs cmh cmf)}"
+      | _, _, _, _, _ => "bad-op"
   | ["assign", lo, hi, nl, nu, xs, mid] =>
       -- values are opaque tokens: the assignment never computes with them
       match parseInt? nl, parseInt? nu, parseList? (fun s => some s) xs, parseList? (fun s => some s) mid with
